@@ -38,12 +38,12 @@ SUT = "lit_sut"
 _NAN = float("nan")
 
 LEAF_REPS = {
-    "int": {"i_neg": -5, "i_zero": 0, "i_pos": 5, "i_huge": 10 ** 400, "i_neghuge": -(10 ** 400),
+    "int": {"i_neg": -5, "i_negone": -1, "i_zero": 0, "i_one": 1, "i_pos": 5, "i_huge": 10 ** 400, "i_neghuge": -(10 ** 400),
             "i_digits": 10 ** 4400},
     "bool": {"b_true": True, "b_false": False},
     "none": {"n_none": None},
     "float": {"f_nan": _NAN, "f_inf": math.inf, "f_ninf": -math.inf, "f_negzero": -0.0, "f_zero": 0.0,
-              "f_neg": -1.5, "f_pos": 1.5, "f_integral": 3.0, "f_exp": 1e22, "f_smallexp": 1.5e-07,
+              "f_neg": -1.5, "f_pos": 1.5, "f_negfrac": -0.25, "f_frac": 0.25, "f_integral": 3.0, "f_exp": 1e22, "f_smallexp": 1.5e-07,
               "f_sub": 5e-324, "f_max": 1.7976931348623157e308, "f_negmax": -1.7976931348623157e308},
     "str": {"s_plain": "abc", "s_squote": "it's", "s_dquote": 'say "hi"', "s_both": "'\"",
             "s_backslash": "a\\b", "s_newline": "a\nb\r\t\x00", "s_nonascii": "é€\U0001f600",
@@ -56,7 +56,8 @@ ENUM_CLASSES = ["e_top", "e_int", "e_negint", "e_str", "e_strquote", "e_flag", "
                 "e_nested", "e_private", "e_foreign"]
 OBJ_CLASSES = ["o_plain", "o_nested", "o_private", "o_local", "o_dynamic", "o_foreign", "o_decimal",
                "o_sized", "o_sized_raises", "o_bytearray", "o_range", "o_dict_keys", "o_function",
-               "o_generator", "o_module", "o_type", "o_deeplist", "o_floatsub", "o_intsub", "o_holder_float"]
+               "o_generator", "o_module", "o_type", "o_deeplist", "o_floatsub", "o_intsub", "o_holder_float",
+               "o_foreign_nested"]
 
 _sut = None
 
@@ -101,7 +102,7 @@ def _enum_or_obj(c: str):
         "o_dict_keys": lambda: {1: 2}.keys(), "o_function": lambda: (lambda: 0), "o_generator": _gen,
         "o_module": lambda: math, "o_type": lambda: int, "o_deeplist": lambda: [[[[[[1]]]]]],
         "o_floatsub": lambda: _FloatSub(2.5), "o_intsub": lambda: _IntSub(7),
-        "o_holder_float": lambda: m.Holder(2.5),
+        "o_holder_float": lambda: m.Holder(2.5), "o_foreign_nested": other.Thing.Part,
     }
     return table[c]()
 
@@ -119,7 +120,8 @@ def _random_member(kind: str, c: str, rng: random.Random):
                 x = rng.uniform(1e-3, 1e6)
                 if x != int(x):
                     return x
-        return {"f_neg": lambda: -fin(), "f_pos": fin, "f_integral": lambda: float(rng.randint(1, 10 ** 15)),
+        return {"f_neg": lambda: -fin(), "f_pos": fin, "f_negfrac": lambda: -rng.uniform(1e-4, 0.999),
+                "f_frac": lambda: rng.uniform(1e-4, 0.999), "f_integral": lambda: float(rng.randint(1, 10 ** 15)),
                 "f_exp": lambda: rng.uniform(1, 9.99) * 10 ** rng.randint(17, 300),
                 "f_smallexp": lambda: rng.uniform(1, 9.99) * 10 ** -rng.randint(5, 300),
                 "f_sub": lambda: rng.randint(1, 2 ** 40) * 5e-324}.get(c, lambda: LEAF_REPS[kind][c])()
@@ -602,7 +604,7 @@ def draw(case: dict, seed: int, chain: int = 3) -> dict:
           "seedv": NONE_NODE, **_blank()}
     n = None
     try:
-        if case.get("start") is not None:
+        if case.get("start") and case["start"]["k"] != "-":
             # start the chain from a rendered representative instead of a generated literal
             n = lg.literal_to_cst(build(case["start"]))
             ev["op"] = "start"
